@@ -29,6 +29,7 @@ class Mod:
         self.classes = {}     # name -> ClassDef
         self.parents = {}
         self._index(self.tree, "")
+        canonical_locals(self)
         for n in ast.walk(self.tree):
             for c in ast.iter_child_nodes(n):
                 self.parents[c] = n
@@ -95,6 +96,100 @@ class Mod:
                     if isinstance(t, ast.Name) and t.id == name:
                         val = st.value
         return val
+
+
+# ---------------------------------------------------------------------------------------------------
+# tolerance for renamed locals (the Python twin of cfront._canonical_locals)
+# ---------------------------------------------------------------------------------------------------
+# Many rules name local variables.  When a function differs from the one the rules were written for *only* in the names of
+# its locals (same AST once local names are masked), the recorded names are written back before any rule looks at it.
+_PYFIXTURE = None
+
+
+def local_names(fn):
+    """local variable names of fn (bound by assignment, for, with, comprehension, except) in order of first occurrence; parameters and global/nonlocal names excluded"""
+    params_ = {a.arg for a in fn.args.args + fn.args.kwonlyargs + getattr(fn.args, "posonlyargs", [])}
+    if fn.args.vararg:
+        params_.add(fn.args.vararg.arg)
+    if fn.args.kwarg:
+        params_.add(fn.args.kwarg.arg)
+    skip = set(params_)
+    for n in ast.walk(fn):
+        if isinstance(n, (ast.Global, ast.Nonlocal)):
+            skip |= set(n.names)
+        if n is not fn and isinstance(n, (ast.FunctionDef, ast.AsyncFunctionDef, ast.Lambda)):
+            a = n.args
+            skip |= {x.arg for x in a.args + a.kwonlyargs + getattr(a, "posonlyargs", [])}
+    order = []
+    for n in _doc_walk(fn):
+        if isinstance(n, ast.Name) and isinstance(n.ctx, (ast.Store, ast.Del)) and n.id not in skip and n.id not in order:
+            order.append(n.id)
+        if isinstance(n, ast.ExceptHandler) and n.name and n.name not in skip and n.name not in order:
+            order.append(n.name)
+    return order
+
+
+def _doc_walk(node):
+    yield node
+    for c in ast.iter_child_nodes(node):
+        yield from _doc_walk(c)
+
+
+def masked_digest(fn, names):
+    """digest of the function with every local name replaced by its position in `names`"""
+    import hashlib
+    idx = {n: "L%d" % i for i, n in enumerate(names)}
+
+    def mask(node):
+        if isinstance(node, ast.Name):
+            return "N(%s)" % idx.get(node.id, node.id)
+        if isinstance(node, ast.ExceptHandler):
+            return "EH(%s,%s,%s)" % (mask(node.type) if node.type else "", idx.get(node.name, node.name), [mask(b) for b in node.body])
+        if isinstance(node, ast.AST):
+            parts = []
+            for f, v in ast.iter_fields(node):
+                if f in ("ctx", "type_comment"):
+                    continue
+                parts.append("%s=%s" % (f, mask(v)))
+            return "%s(%s)" % (type(node).__name__, ",".join(parts))
+        if isinstance(node, list):
+            return "[" + ",".join(mask(x) for x in node) + "]"
+        return repr(node)
+    return hashlib.sha1(mask(fn).encode()).hexdigest()
+
+
+def canonical_locals(mod):
+    global _PYFIXTURE
+    if _PYFIXTURE is None:
+        import json
+        try:
+            with open(os.path.join(os.path.dirname(os.path.abspath(__file__)), "pylocals_fixture.json")) as f:
+                _PYFIXTURE = json.load(f)
+        except Exception:
+            _PYFIXTURE = {}
+        import sys
+        if _PYFIXTURE.get("__python__") != "%d.%d" % sys.version_info[:2]:
+            _PYFIXTURE = {}         # the digests depend on the ast module of the interpreter that recorded them
+    done = set()
+    for q, fn in mod.functions.items():
+        if id(fn) in done:
+            continue
+        done.add(id(fn))
+        ent = _PYFIXTURE.get("%s:%s" % (mod.rel, q))
+        if not ent:
+            continue
+        cur = local_names(fn)
+        want = ent["names"]
+        if cur == want or len(cur) != len(want) or len(set(want)) != len(want):
+            continue
+        if masked_digest(fn, cur) != ent["digest"]:
+            continue
+        m = dict(zip(cur, want))
+        for n in ast.walk(fn):
+            if isinstance(n, ast.Name) and n.id in m:
+                n.id = m[n.id]
+            elif isinstance(n, ast.ExceptHandler) and n.name in m:
+                n.name = m[n.name]
 
 
 def _prop_kind(fn):
